@@ -382,7 +382,8 @@ def reply_fallback_rule(ctx, w, node_action, paths):
         hit = [p for p in elem if any(is_flag(a) and t for a, t in p.conds) and any(is_reply(a) and t for a, t in p.conds)]
         ctx.check(bool(hit) and all(D.show(p.ret) == "NodeAction::Remove" for p in hit), "C14.reply-fallback", "C14.reply-fallback:verdict", w.where(node_action),
                   bad_msg=f"with {fl} set, an `mx-reply` element gets {sorted({D.show(p.ret) for p in hit}) or 'no verdict that tests the flag and the element name'}")
-        early = [p for p in elem if not any(is_flag(a) for a, t in p.conds) and D.show(p.ret) != "NodeAction::Remove"]
+        # a verdict other than Remove is legitimate only once the path has established "no fallback removal requested" or "not an mx-reply"
+        early = [p for p in elem if D.show(p.ret) != "NodeAction::Remove" and not any((is_flag(a) or is_reply(a)) and not t for a, t in p.conds)]
         ctx.check(not early, "C14.reply-fallback", "C14.reply-fallback:before-other-verdicts", w.where(node_action),
                   bad_msg=f"an element can be kept or unwrapped ({sorted({D.show(p.ret) for p in early})}) before the reply-fallback request is consulted")
         extra = [p for p in hit if any((("depth" in D.show_atom(a)) or ("ignore_elements" in D.show_atom(a)) or ("allow_elements" in D.show_atom(a))) for a, t in p.conds)]
